@@ -352,6 +352,12 @@ pub fn run(code: &[u8], cfg: &RefCfg) -> RefRun {
                                 }
                                 if all_known {
                                     hash = Some(keccak_words(&words));
+                                } else if words.len() as u64 == (s64 + 31) / 32 && !words.is_empty() {
+                                    // a size that is not a multiple of 32 over known words: the EVM's hash
+                                    // of the exact bytes is not modelled, but the hash of the whole words in
+                                    // order is "hashing the tool documents" (its proxy-slot pass hashes
+                                    // whole words), so it is attributable to these constants
+                                    from.push(Val::k(keccak_words(&words)));
                                 }
                             }
                         }
